@@ -1,14 +1,20 @@
 (* RaftLogProofs.v — the third log-replication defect class `commit-without-quorum` (RaftLog.v):
    witnesses (vm_compute) that C28c and C29 fail in histories in which NONE of the five classes of
-   RaftProofs.classes occurs, hence that "no ack-from-diverged-log, no old-term-commit" does not imply them. *)
+   RaftProofs.classes occurs, hence that "no ack-from-diverged-log, no old-term-commit" does not imply them.
+
+   The class is the one removed by the acknowledgement repair (Raft.v: fix_ack_term; fixes/C28-count-only-current-term-acks.diff).
+   The witnesses are therefore stated for the revisions WITHOUT that repair — `rr_before_ack_fix` (both election repairs,
+   = /repo before the patch) and, more generally, every revision with `fix_ack_term rv = false` —, and the SAME event
+   lists are shown harmless under `rr_fixed` (`commit_noquorum_witnesses_harmless_fixed`). *)
 From Coq Require Import NArith List Bool Lia.
 From Agdb Require Import Raft RaftWitness RaftProofs RaftLog.
 Import ListNotations.
 Open Scope N_scope.
 
 (* corpus/C29/commit_noquorum.txt and corpus/C28/commit_noquorum.txt, 5 nodes: one leader per term, none of the five
-   classes, the new marker set; same facts for every revision of the election code *)
-Lemma w_noquorum_facts : forall rv,
+   classes, the new marker set; same facts for every revision of the election code, as long as the leader still
+   counts rows that are not acknowledgements of its current term *)
+Lemma w_noquorum_facts : forall rv, fix_ack_term rv = false ->
   (let h := c_hist (run rv w29_commit_noquorum_n w29_commit_noquorum) in
    leader_completeness_b h = false /\ election_safety_b h = true /\
    classes h = (false, false, false, false, false) /\
@@ -17,49 +23,99 @@ Lemma w_noquorum_facts : forall rv,
    committed_agree_b c = false /\ election_safety_b (c_hist c) = true /\
    classes (c_hist c) = (false, false, false, false, false) /\
    commit_noquorum_b rv w28_commit_noquorum_n w28_commit_noquorum = true).
-Proof. intros [[|] [|]]; vm_compute; repeat split; reflexivity. Qed.
+Proof. intros [[|] [|] [|]] F; try discriminate F; vm_compute; repeat split; reflexivity. Qed.
 
-Lemma C29_refuted_commit_noquorum : forall rv,
+(* the same two event lists under the repaired revision: the stale row is cleared at the election, nothing is
+   committed without a quorum, all nodes agree on what they committed, every leader holds every entry committed by
+   an earlier leader (also in the literal reading), one leader per term, no marker of any class *)
+Lemma w_noquorum_facts_fixed :
+  (let c := run rr_fixed w29_commit_noquorum_n w29_commit_noquorum in
+   leader_completeness_b (c_hist c) = true /\ leader_completeness_up_b (c_hist c) = true /\
+   committed_agree_b c = true /\ election_safety_b (c_hist c) = true /\
+   classes (c_hist c) = (false, false, false, false, false) /\
+   commit_noquorum_b rr_fixed w29_commit_noquorum_n w29_commit_noquorum = false) /\
+  (let c := run rr_fixed w28_commit_noquorum_n w28_commit_noquorum in
+   leader_completeness_b (c_hist c) = true /\ leader_completeness_up_b (c_hist c) = true /\
+   committed_agree_b c = true /\ election_safety_b (c_hist c) = true /\
+   classes (c_hist c) = (false, false, false, false, false) /\
+   commit_noquorum_b rr_fixed w28_commit_noquorum_n w28_commit_noquorum = false).
+Proof. vm_compute. repeat split; reflexivity. Qed.
+
+Lemma C29_refuted_commit_noquorum : forall rv, fix_ack_term rv = false ->
   exists size evs, let h := c_hist (run rv size evs) in
     size <> 1 /\ election_safety h /\ classes h = (false, false, false, false, false) /\
     commit_noquorum_b rv size evs = true /\ ~ leader_completeness h.
 Proof.
-  intros rv. exists w29_commit_noquorum_n, w29_commit_noquorum.
-  destruct (w_noquorum_facts rv) as [[F [E [C Q]]] _]. cbv zeta in *.
+  intros rv Fa. exists w29_commit_noquorum_n, w29_commit_noquorum.
+  destruct (w_noquorum_facts rv Fa) as [[F [E [C Q]]] _]. cbv zeta in *.
   repeat split; auto.
   - discriminate.
   - apply election_safety_b_complete; exact E.
   - intros H. apply leader_completeness_b_sound in H. congruence.
 Qed.
 
-Lemma C28c_refuted_commit_noquorum : forall rv,
+Lemma C28c_refuted_commit_noquorum : forall rv, fix_ack_term rv = false ->
   exists size evs, let c := run rv size evs in
     size <> 1 /\ election_safety (c_hist c) /\ classes (c_hist c) = (false, false, false, false, false) /\
     commit_noquorum_b rv size evs = true /\ ~ committed_agree c.
 Proof.
-  intros rv. exists w28_commit_noquorum_n, w28_commit_noquorum.
-  destruct (w_noquorum_facts rv) as [_ [F [E [C Q]]]]. cbv zeta in *.
+  intros rv Fa. exists w28_commit_noquorum_n, w28_commit_noquorum.
+  destruct (w_noquorum_facts rv Fa) as [_ [F [E [C Q]]]]. cbv zeta in *.
   repeat split; auto.
   - discriminate.
   - apply election_safety_b_complete; exact E.
   - intros H. apply committed_agree_b_sound in H. congruence.
 Qed.
 
-(* the conjecture "the two known log-replication classes are the only ways to break C28c / C29" is false *)
-Lemma two_classes_not_enough_C29 : forall rv,
+(* the conjecture "the two known log-replication classes are the only ways to break C28c / C29" is false
+   before the acknowledgement repair *)
+Lemma two_classes_not_enough_C29 : forall rv, fix_ack_term rv = false ->
   ~ (forall size evs, size <> 1 ->
        ack_diverged_b (c_hist (run rv size evs)) = false -> old_term_commit_b (c_hist (run rv size evs)) = false ->
        leader_completeness (c_hist (run rv size evs))).
 Proof.
-  intros rv H. destruct (C29_refuted_commit_noquorum rv) as (size & evs & Hs & _ & C & _ & N). cbv zeta in *.
+  intros rv Fa H. destruct (C29_refuted_commit_noquorum rv Fa) as (size & evs & Hs & _ & C & _ & N). cbv zeta in *.
   apply N. apply H; auto; unfold classes in C; congruence.
 Qed.
 
-Lemma two_classes_not_enough_C28c : forall rv,
+Lemma two_classes_not_enough_C28c : forall rv, fix_ack_term rv = false ->
   ~ (forall size evs, size <> 1 ->
        ack_diverged_b (c_hist (run rv size evs)) = false -> old_term_commit_b (c_hist (run rv size evs)) = false ->
        committed_agree (run rv size evs)).
 Proof.
-  intros rv H. destruct (C28c_refuted_commit_noquorum rv) as (size & evs & Hs & _ & C & _ & N). cbv zeta in *.
+  intros rv Fa H. destruct (C28c_refuted_commit_noquorum rv Fa) as (size & evs & Hs & _ & C & _ & N). cbv zeta in *.
   apply N. apply H; auto; unfold classes in C; congruence.
+Qed.
+
+(* ------------------------------------------------------------------ the statements for today's /repo and for the repair *)
+
+Lemma C29_refuted_commit_noquorum_before_ack_fix :
+  exists size evs, let h := c_hist (run rr_before_ack_fix size evs) in
+    size <> 1 /\ election_safety h /\ classes h = (false, false, false, false, false) /\
+    commit_noquorum_b rr_before_ack_fix size evs = true /\ ~ leader_completeness h.
+Proof. apply C29_refuted_commit_noquorum. reflexivity. Qed.
+
+Lemma C28c_refuted_commit_noquorum_before_ack_fix :
+  exists size evs, let c := run rr_before_ack_fix size evs in
+    size <> 1 /\ election_safety (c_hist c) /\ classes (c_hist c) = (false, false, false, false, false) /\
+    commit_noquorum_b rr_before_ack_fix size evs = true /\ ~ committed_agree c.
+Proof. apply C28c_refuted_commit_noquorum. reflexivity. Qed.
+
+(* the SAME event lists are harmless under rr_fixed *)
+Lemma commit_noquorum_witnesses_harmless_fixed :
+  (let c := run rr_fixed w28_commit_noquorum_n w28_commit_noquorum in
+   committed_agree c /\ leader_completeness (c_hist c) /\ election_safety (c_hist c) /\
+   commit_noquorum_b rr_fixed w28_commit_noquorum_n w28_commit_noquorum = false) /\
+  (let c := run rr_fixed w29_commit_noquorum_n w29_commit_noquorum in
+   committed_agree c /\ leader_completeness (c_hist c) /\ election_safety (c_hist c) /\
+   commit_noquorum_b rr_fixed w29_commit_noquorum_n w29_commit_noquorum = false).
+Proof.
+  destruct w_noquorum_facts_fixed as [(L9 & _ & A9 & E9 & _ & Q9) (L8 & _ & A8 & E8 & _ & Q8)]. cbv zeta in *.
+  split; (split; [|split; [|split]]); auto.
+  - apply committed_agree_b_complete; exact A8.
+  - apply leader_completeness_b_complete; exact L8.
+  - apply election_safety_b_complete; exact E8.
+  - apply committed_agree_b_complete; exact A9.
+  - apply leader_completeness_b_complete; exact L9.
+  - apply election_safety_b_complete; exact E9.
 Qed.
